@@ -15,11 +15,11 @@ import (
 // The information comes from the headers of runtime.Stack(all).
 
 type gInfo struct {
-	id     int64
-	state  string
-	lib    bool // has a frame in grpchan/inprocgrpc or grpchan/httpgrpc
-	harn   bool // is running the harness's stand-in for user code (handler, client actor)
-	top    string
+	id    int64
+	state string
+	lib   bool // has a frame in grpchan/inprocgrpc or grpchan/httpgrpc
+	harn  bool // is running the harness's stand-in for user code (handler, client actor)
+	top   string
 }
 
 var stackBuf = make([]byte, 1<<20)
